@@ -50,7 +50,13 @@ pub struct PartialDate {
 impl PartialDate {
     /// Returns a boolean for if the current `PartialDate` is empty.
     pub(crate) fn is_empty(&self) -> bool {
-        *self == Self::default()
+        // The calendar is not a field: a record that only names a calendar supplies nothing.
+        self.year.is_none()
+            && self.month.is_none()
+            && self.month_code.is_none()
+            && self.day.is_none()
+            && self.era.is_none()
+            && self.era_year.is_none()
     }
 
     pub(crate) fn try_from_year_month(year_month: &PlainYearMonth) -> TemporalResult<Self> {
